@@ -101,3 +101,6 @@ Definition unreach_frame_struct_ok (c : codec) (f : N) (k : skind) (fr : list N)
   exists wd,
     read_unreach (max_len c) (legacy c f) fr = Some (f, wd) /\
     read_items k (length wd) (addpath_for c f) wd = Some (map (canon_item (addpath_for c f)) chunk).
+
+(* octet strings *)
+Definition bytes_ok (l : list N) : Prop := Forall (fun x => x < 256) l.
